@@ -285,6 +285,17 @@ Proof.
   - rewrite !orb_false_r. destruct ((l <? INT_MIN) || (l >? INT_MAX)); cbn; split; reflexivity.
 Qed.
 
+(* SC_OPTION_DOUBLE (57534b2): the outcome is a function of what strtod says about the text alone; the error return
+   exactly for an ERANGE result that is zero or infinite *)
+Lemma apply_double w o k it a : it_type it = TDouble ->
+  let r := apply_item strtod w o k it (Some a) in
+  if dbl_error (fst (strtod a)) (snd (strtod a)) then fst r = -1 /\ w_store (snd r) = w_store w
+  else fst r = 0 /\ w_store (snd r) = st_set (w_store w) (it_var it) (VD (fst (strtod a))).
+Proof.
+  intros Ht. unfold apply_item. rewrite Ht. destruct (strtod a) as [x e]. cbn [fst snd].
+  destruct (dbl_error x e); split; reflexivity.
+Qed.
+
 Lemma apply_size w o k it a : it_type it = TSize ->
   let r := apply_item strtod w o k it (Some a) in
   match size_outcome a with
@@ -327,3 +338,36 @@ Proof.
   rewrite orb_false_r.
   destruct (n <? 0) eqn:E3; destruct (0 <=? n) eqn:E5; destruct (n <=? 9223372036854775807) eqn:E6; try lia; reflexivity.
 Qed.
+
+(* ---- the range rule for doubles (57534b2) ---- *)
+Definition DBL_INF : Z := 0x7FF0000000000000.
+
+Lemma dbl_error_spec x e : dbl_error x e = true <-> e = true /\ (dbl_mag x = 0 \/ dbl_mag x = DBL_INF).
+Proof.
+  unfold dbl_error, dbl_is_zero, dbl_is_inf, DBL_INF. rewrite andb_true_iff, orb_true_iff, !Z.eqb_eq. tauto.
+Qed.
+
+(* every finite nonzero value - normal or subnormal, either sign - is accepted whether or not strtod raised ERANGE *)
+Lemma dbl_finite_nonzero_accepted x e : 0 < dbl_mag x < DBL_INF -> dbl_error x e = false.
+Proof.
+  intros H. destruct (dbl_error x e) eqn:E; [|reflexivity]. apply dbl_error_spec in E. unfold DBL_INF in *. lia.
+Qed.
+
+(* subnormals: exponent field 0, mantissa not 0 *)
+Lemma dbl_subnormal_accepted x e : 0 < dbl_mag x < 2 ^ 52 -> dbl_error x e = false.
+Proof. intros H. apply dbl_finite_nonzero_accepted. unfold DBL_INF. lia. Qed.
+
+(* without ERANGE everything is accepted (inf, nan, 0 as texts denote them) *)
+Lemma dbl_no_erange_accepted x : dbl_error x false = false.
+Proof. reflexivity. Qed.
+
+(* underflow to +-0 and overflow to +-inf with ERANGE are the errors *)
+Lemma dbl_range_errors : dbl_error 0 true = true /\ dbl_error (2 ^ 63) true = true /\
+  dbl_error DBL_INF true = true /\ dbl_error (2 ^ 63 + DBL_INF) true = true.
+Proof. repeat split; reflexivity. Qed.
+
+(* regression guard: the rule before 57534b2 rejects the smallest and the largest subnormal, the repaired rule accepts them *)
+Lemma dbl_old_rule_refuted :
+  dbl_error_old 1 true = true /\ dbl_error_old (2 ^ 52 - 1) true = true /\ dbl_error_old (2 ^ 63 + 1) true = true /\
+  dbl_error 1 true = false /\ dbl_error (2 ^ 52 - 1) true = false /\ dbl_error (2 ^ 63 + 1) true = false.
+Proof. repeat split; reflexivity. Qed.
